@@ -882,7 +882,8 @@ LEVEL_TEXT = ('Lean 4 theorems over a code-shaped model of utils.convert_input_d
               'no collection exceeds the limit; the result is the source with container kinds renamed), plain (every '
               'result is plain data, all options, all limits), succeeds_iff, fails_only_unhashable, total_partial, '
               'roundtrip (JSON-like documents and tuples / sets / generators of such; `= d` under the defaults), '
-              'convIn_wf (input conversion never raises). The full claim "finalisation succeeds for every value under '
+              'convIn_wf (input conversion never raises), views_finalise (keys() / items() of any dict whose keys and '
+              'values are finalised become the list of keys / of [key, value] pairs, all options). The full claim "finalisation succeeds for every value under '
               'every option combination" is false of the code and unsatisfiable: current_fails / current_fails_full / '
               'current_fails_unsatisfiable (known finding K1). Tie: the compiled model and the real code are run on the '
               'same random values, documents and expression results under the 4 option combinations and several limits.')
